@@ -235,7 +235,8 @@ def run(res, a):
             for c in codes:
                 mism.append(({1: "the section composed by the model differs from the assembled program of some processor",
                               2: "the model's direct evaluation differs from the settled outputs",
-                              3: "a generated graph or collapse list is outside the conditions of the pass-correctness theorem (graph_ok / pass_ok)",
+                              3: "a generated graph or partition is outside the conditions of the theorems (graph_ok / ext_ok / partition_ok)",
+                              5: "the pass-by-pass machine model built from the assembled programs does not end with the observed outputs",
                               4: "one pass of the assembled section, run in the model on the settled inputs, does not leave the graph's values at the processor outputs"}[c], metas[k]))
             k += 1
     if False:
